@@ -597,6 +597,7 @@ inductive Kind where
   | maliciousDelayed      -- ERC20MaliciousDelayed: every transfer emits an Approval for a thief
   | doubleDebit           -- hand-assembled test token: transfer debits twice the amount from the caller (extra → sink)
   | feeOnReceive          -- hand-assembled test token: transfer debits the amount plus 1 from the caller (extra → sink)
+  | programmable          -- hand-assembled test token whose `balanceOf` / `transfer` behaviour is set through control slots
   deriving Repr, DecidableEq
 
 def thief : Addr := "4dc6ac40af078661fc43823086e1513635eeab14"
@@ -607,6 +608,12 @@ structure TokState where
   bal : Addr → Nat
   supply : Nat
   admin : Addr → Bool        -- MINTER_ROLE / BURNER_ROLE holders
+  -- control slots of the programmable token (harness/c11_pg_test.go)
+  readMode : Nat := 0        -- `balanceOf` now: 0 honest | 1 revert | 2 short data | 3 honest + trailing junk | 4 empty return
+  readNext : Nat := 0        -- … installed by the next executed `transfer` (then reset to honest)
+  readWho : Addr := ""       -- "" = the mode applies to every account, else only to this one
+  xferMode : Nat := 0        -- the next `transfer`: 0 honest | 1 revert | 2 true, no effect | 3 false, with effect |
+                             --   4 fee of 1 | 5 effect, empty return | 6 effect, true + trailing junk | 7 false, no effect
 
 def TokState.move (t : TokState) (src dst : Addr) (amt : Nat) : Option TokState :=
   if dst = zeroAddr ∨ src = zeroAddr ∨ t.bal src < amt then none
@@ -636,8 +643,26 @@ def advTransfer (t : TokState) (caller to : Addr) (amt extra : Nat) : Call TokSt
     let b2 : Addr → Nat := fun a => if a = thief then b1 thief + extra else b1 a
     .ret { t with bal := fun a => if a = to then b2 to + amt else b2 a } (some true) false
 
+/-- what the programmable token answers to `balanceOf(a)`: `none` = revert / undecodable return data -/
+def pgBalanceOf (t : TokState) (a : Addr) : Option Nat :=
+  let m := if t.readWho = "" ∨ t.readWho = a then t.readMode else 0
+  if m = 1 ∨ m = 2 ∨ m = 4 then none else some (t.bal a)
+
+/-- the programmable token's `transfer`: unless it reverts it switches the read phase and consumes its mode -/
+def pgTransfer (t : TokState) (caller to : Addr) (amt : Nat) : Call TokState :=
+  let m := t.xferMode
+  if m = 1 then .revert
+  else
+    let t1 := { t with readMode := t.readNext, readNext := 0, xferMode := 0 }
+    let val : Option Bool := if m = 3 ∨ m = 7 then some false else if m = 5 then none else some true
+    if m = 2 ∨ m = 7 then .ret t1 val false
+    else match advTransfer t1 caller to amt (if m = 4 then 1 else 0) with
+      | .revert => .revert
+      | .ret t2 _ _ => .ret t2 val false
+
 def repoTransfer (t : TokState) (caller to : Addr) (amt : Nat) : Call TokState :=
   match t.kind with
+  | .programmable => pgTransfer t caller to amt
   | .minterBurner => ofOpt (t.move caller to amt) (some true) false
   | .directBalance =>
     let half := amt / 2
@@ -649,7 +674,9 @@ def repoTransfer (t : TokState) (caller to : Addr) (amt : Nat) : Call TokState :
 
 /-- The behaviour of the contracts compiled in the repository (plus the hand-assembled double-debit token). -/
 def repoBehaviour : Behaviour TokState where
-  balanceOf := fun t a => some (t.bal a)
+  balanceOf := fun t a => match t.kind with
+    | .programmable => pgBalanceOf t a
+    | _ => some (t.bal a)
   totalSupply := fun t => t.supply
   transfer := repoTransfer
   mint := fun t caller to amt => if t.admin caller then ofOpt (t.mintTo to amt) none false else .revert
